@@ -181,20 +181,25 @@ impl SyncBlocker {
         })
     }
 
+    // The owner's time-out / cancel path (`set_release` then `is_unparked`) and the
+    // waker (`unparked.store` then `take_release`) are the two sides of a
+    // store-then-load hand-shake: exactly one of them must see the other's flag.
+    // That needs sequentially consistent accesses; with Release/Acquire both loads
+    // may miss the other side's store (store buffering) and the permit is lost.
     #[inline]
     pub fn is_unparked(&self) -> bool {
-        self.unparked.load(Ordering::Acquire)
+        self.unparked.load(Ordering::SeqCst)
     }
     // set the Flag for the release action
     #[inline]
     pub fn set_release(&self) {
-        self.release.store(true, Ordering::Release);
+        self.release.store(true, Ordering::SeqCst);
     }
 
     // take the release Flag
     #[inline]
     pub fn take_release(&self) -> bool {
-        self.release.swap(false, Ordering::Acquire)
+        self.release.swap(false, Ordering::SeqCst)
     }
 
     #[inline]
@@ -205,6 +210,6 @@ impl SyncBlocker {
     #[inline]
     pub fn unpark(&self) {
         self.blocker.unpark();
-        self.unparked.store(true, Ordering::Release);
+        self.unparked.store(true, Ordering::SeqCst);
     }
 }
